@@ -97,6 +97,16 @@ def gen_case(rng, flavour):
         if flavour == "md5" and r < 0.30:
             lines.append(rng.choice(["md5", "md5raw"]) + f" {h}")
             continue
+        if flavour == "md5" and r < 0.33:
+            # a signature holding several sketches (signature_push_mh); implementation only, judged by the oracle
+            lines.append(f"@sigpush {h} " + " ".join(str(hd()) for _ in range(rng.randint(1, 3))))
+            continue
+        if r > 0.96:
+            # k-mers of a sequence added to a plain sketch (MinHash.add_sequence / add_kmer / seq_to_hashes + add_many)
+            alphabet = "ACGT" if rng.random() < 0.8 else "ACGTN"
+            seq = "".join(rng.choice(alphabet) for _ in range(rng.randint(18, 40)))
+            lines.append(f"addseq {h} {seq} {1 if 'N' in seq or rng.random() < 0.5 else 0}")
+            continue
         if flavour == "setops" and r < 0.35:
             g = hd()
             res = rng.randrange(nh, nh + 3)
@@ -140,8 +150,10 @@ def gen_case(rng, flavour):
             lines.append(f"down {h} {hd()} {rng.choice([scaled, scaled + 1, scaled * 2, scaled * 3 + 1, 2 ** 20])}")
         elif r < 0.97 and is_num:
             lines.append(f"downnum {h} {hd()} {rng.choice([1, 2, num, max(1, num - 1), num + 1])}")
-        else:
+        elif r < 0.985:
             lines.append(f"cc {h} {hd()} {rng.randint(0, 1)}")
+        else:
+            lines.append(f"iu {h} {hd()}")
     return lines
 
 
@@ -232,11 +244,22 @@ class SpecSketch:
         return keys, [self.cnt[k] for k in keys]
 
 
+def view_hits(case, impl, prop):
+    """the adapter's own checks: two views of one object, two routes to one operation or two moments of an object
+    no operation touched disagree in the REAL code (`err ViewDisagreement <what>`): a hit by itself"""
+    out = []
+    for idx, (op, obs) in enumerate(zip(case, impl)):
+        if obs.startswith("err ViewDisagreement"):
+            out.append((idx, f"{prop}:views:{op.split()[0]}",
+                        f"after `{op[:80]}` the implementation disagrees with itself: {obs[21:].replace('_', ' ')}"))
+    return out
+
+
 def oracle_content(case, impl):
     """C01: after every op the touched sketch equals the retained view of the spec multiset.
     returns list of (op_index, signature, message)"""
     S = {}
-    bad = []
+    bad = view_hits(case, impl, "C01")
     for idx, (op, obs) in enumerate(zip(case, impl)):
         w = op.split()
         o = w[0]
@@ -288,6 +311,18 @@ def oracle_content(case, impl):
                     S[tgt].lossy = S[tgt].removed_after_loss = True
                 for k, v in prs:
                     S[tgt].add(k, v)
+            elif o == "addseq":
+                # which hashes a sequence yields is C02's subject: take the new hashes from the observation, but
+                # nothing that was there may be lost or change its count except by num eviction, and every new hash
+                # counts at least once
+                tgt = int(a[0])
+                if st is None:
+                    continue
+                before = dict(S[tgt].cnt)
+                obs = dict(zip(st["mins"], st["ab"] or [1] * len(st["mins"])))
+                for k2, v2 in obs.items():
+                    if k2 not in before or (S[tgt].track and v2 > before[k2]):
+                        S[tgt].add(k2, v2 - (before.get(k2, 0) if S[tgt].track else 0))
             elif o == "clear":
                 tgt = int(a[0])
                 S[tgt].cnt = {}
@@ -307,6 +342,9 @@ def oracle_content(case, impl):
                 S[tgt] = S[g].clone()
             elif o == "down":
                 tgt, g = int(a[0]), int(a[1])
+                if st is not None and int(a[2]) <= 2 ** 31 and (st["sc"] != int(a[2]) or st["num"] != 0):
+                    bad.append((idx, "C01:down:reported-scaled",
+                                f"`{op}`: asked for scaled={a[2]}, the result reports scaled={st['sc']} num={st['num']}"))
                 n = SpecSketch(0, st["mh"], S[g].track)
                 ks, vs = S[g].view()
                 for k, v in zip(ks, vs):
@@ -314,6 +352,8 @@ def oracle_content(case, impl):
                 S[tgt] = n
             elif o == "downnum":
                 tgt, g = int(a[0]), int(a[1])
+                if st is not None and st["num"] != int(a[2]):
+                    bad.append((idx, "C01:down:reported-num", f"`{op}`: asked for num={a[2]}, the result reports num={st['num']}"))
                 n = S[g].clone()
                 n.num = st["num"]
                 n._note()          # truncation to a smaller num is an eviction
@@ -378,7 +418,7 @@ def oracle_content(case, impl):
 def oracle_md5(case, impl, ksize=21):
     """C11: every md5 answer equals the digest of the k-mer size and the current hashes."""
     cur = {}
-    bad = []
+    bad = view_hits(case, impl, "C11")
     for idx, (op, obs) in enumerate(zip(case, impl)):
         w = op.split()
         if obs.startswith("sig k=") and " md5 " in obs:
@@ -387,9 +427,21 @@ def oracle_md5(case, impl, ksize=21):
             mins = [int(x) for x in f["mins"].split(",")] if f.get("mins") else []
             exp = common.md5_of_pre(int(f["k"]), mins)
             got = [x.replace("md5 ", "").strip() for x in ("md5 " + rest).split(" | ")]
-            if any(g != exp for g in got):
+            if w[0] in ("sig", "sigsetmh") and len(w) == 3 and int(w[2]) in cur and mins != cur[int(w[2])]:
+                bad.append((idx, "C11:signature-content", f"after `{op}` the signature holds {len(mins)} hashes {mins[:4]}.. "
+                                                          f"but the sketch it was given holds {cur[int(w[2])][:4]}.. ({len(cur[int(w[2])])})"))
+            if any(g != exp for g in got):       # a view that disagrees is printed as `<value>(<view name>)`
                 bad.append((idx, "C11:stale-md5:signature", f"after `{op}` the signature reports md5 {got[0]} (its sketch: {got[-1]}) "
                                                              f"but the digest of k={f['k']} and its current {len(mins)} hashes is {exp}"))
+            continue
+        if op.startswith("@sigpush") and obs.startswith("sigs "):
+            for piece in obs[5:].split(" | "):
+                f = dict(p.split("=", 1) for p in piece.split(";") if "=" in p)
+                mins = [int(x) for x in f["mins"].split(",")] if f.get("mins") else []
+                exp = common.md5_of_pre(int(f["k"]), mins)
+                if f["md5"] != exp:
+                    bad.append((idx, "C11:stale-md5:signature:multi", f"after `{op}` a sketch of a multi-sketch signature is saved with "
+                                f"md5sum {f['md5']} but the digest of k={f['k']} and its {len(mins)} hashes is {exp}"))
             continue
         if op.startswith("@") and obs.startswith("sig md5="):
             f = dict(p.split("=", 1) for p in obs.split(" ")[1:] if "=" in p)
